@@ -151,6 +151,8 @@ def gen_cases(unit, ctx):
                 yield dict(base, notes=_mk(ns), events=[["ts", t1, 3, 4]])
                 for t2 in range(0, 13):
                     yield dict(base, notes=_mk(ns), events=[["ts", t1, 3, 4], ["ks", t2, "G"]])
+                    if t2 % 3 == 0:
+                        yield dict(base, notes=_mk(ns), events=[["cc", t1, 64, 100], ["pc", t2, 5], ["cc", t2, 1, 0]])
     elif kind == "triples":
         red = _reduced(ctx, vals)
         i = unit[3]
